@@ -565,3 +565,226 @@ Qed.
 Theorem unmp_first_tap : forall pf f o R t cur tk rest p,
   exists l, snd (unmp pf (S f) o R t cur (tk :: rest) p) = (p, kind tk, rk_of t) :: l.
 Proof. intros. rewrite unmp_S. unfold pstep, ptap. cbn [snd]. eexists. reflexivity. Qed.
+
+(* ====================================================================================== *)
+(* Part 3.  The declarative path statement on the canonical stream of a value              *)
+(* ====================================================================================== *)
+
+(* a successful outcome together with the (path, target kind) projection of its log *)
+Definition pres_is {A} (r : pr A) (a : A) (L : list (path * N)) : Prop :=
+  fst r = POk a /\ log_paths (snd r) = L.
+
+Lemma log_paths_app l1 l2 : log_paths (l1 ++ l2) = log_paths l1 ++ log_paths l2.
+Proof. apply map_app. Qed.
+
+Lemma pres_is_pbind {A B} (r : pr A) (k : A -> pr B) a b L1 L2 L :
+  pres_is r a L1 -> L = L1 ++ L2 -> pres_is (k a) b L2 -> pres_is (pbind r k) b L.
+Proof.
+  intros [H1 H2] -> [H3 H4]. destruct r as [r0 l]. cbn [fst snd] in H1, H2. subst r0. cbn [pbind fst snd].
+  split; [exact H3|]. change (log_paths (l ++ snd (k a)) = L1 ++ L2). rewrite log_paths_app, H2, H4. reflexivity.
+Qed.
+
+Lemma pres_is_pok {A} (a : A) : pres_is (pok a) a [].
+Proof. split; reflexivity. Qed.
+
+Lemma pres_is_ptap {A} p k rk (r : pr A) a L :
+  pres_is r a L -> pres_is (ptap (p, k, rk) r) a ((p, rk) :: L).
+Proof.
+  intros [H1 H2]. split; [exact H1|]. unfold ptap. cbn [snd]. unfold log_paths in *. cbn [map fst snd].
+  rewrite H2. reflexivity.
+Qed.
+
+Lemma pbind_pok {A B} (a : A) (k : A -> pr B) : pbind (pok a) k = k a.
+Proof. unfold pbind, pok. destruct (k a) as [x l]. reflexivity. Qed.
+
+(* ---- the pieces of [upaths] as named fixpoints ---- *)
+Definition upl (et : ty) (p : path) : list gval -> nat -> list (path * N) :=
+  fix go (l : list gval) (i : nat) : list (path * N) :=
+    match l with
+    | [] => []
+    | x :: r => upaths et x (p ++ [PIdx (Z.of_nat i)]) ++ go r (S i)
+    end.
+
+Definition ups (p : path) : list gval -> list (bytes * bool * ty) -> list (path * N) :=
+  fix go (l : list gval) (f : list (bytes * bool * ty)) : list (path * N) :=
+    match l, f with
+    | x :: r, fd :: fr =>
+        if negb (fexported fd) then go r fr
+        else (p, 24) :: upaths (snd fd) x (p ++ [PStr (fname fd)]) ++ go r fr
+    | _, _ => []
+    end.
+
+Lemma upaths_list t n items p : upaths t (GList n items) p = (p, rk_of t) :: upl (elem_ty t) p items 0.
+Proof. reflexivity. Qed.
+Lemma upaths_struct t vals p : upaths t (GStruct vals) p = (p, rk_of t) :: ups p vals (fields_of t).
+Proof. reflexivity. Qed.
+Lemma upaths_ptr t x p : upaths t (GPtr (Some x)) p = (p, rk_of t) :: upaths (pointee_ty t) x p.
+Proof. reflexivity. Qed.
+Lemma upl_cons et p x l i : upl et p (x :: l) i = upaths et x (p ++ [PIdx (Z.of_nat i)]) ++ upl et p l (S i).
+Proof. reflexivity. Qed.
+Lemma ups_cons p x l fd fs :
+  ups p (x :: l) (fd :: fs) =
+  if negb (fexported fd) then ups p l fs
+  else (p, 24) :: upaths (snd fd) x (p ++ [PStr (fname fd)]) ++ ups p l fs.
+Proof. reflexivity. Qed.
+
+(* ---- no registered type: no TypeName token ---- *)
+Lemma noreg_prefix t : noreg_ty t = true -> reg_prefix t = [].
+Proof.
+  destruct t as [ | | | | | | | | | | | | | | | |n r d u| ]; try reflexivity.
+  destruct r; [cbn [noreg_ty negb andb]; discriminate|reflexivity].
+Qed.
+
+Lemma noreg_underlying t : noreg_ty t = true -> noreg_ty (underlying t) = true.
+Proof.
+  induction t; cbn [underlying]; try (intros H; exact H).
+  cbn [noreg_ty]. intros H. apply andb_true_iff in H. apply IHt, H.
+Qed.
+
+Lemma marshal_head_nr o : forall v t ts,
+  has_type t v = true -> simple_ty t = true -> noreg_ty t = true -> marshal o t v = Ok ts ->
+  exists tk r, ts = tk :: r /\ (kind tk =? KTypeName) = false.
+Proof.
+  induction v as [b|z|n|b|b|s|n s|n l IH|n es|l IH| |x IH|d|r|e] using gval_ind2; intros t ts Hty Hs Hnr Hm;
+    pose proof (noreg_prefix t Hnr) as Hpre.
+  - cbn [marshal bind] in Hm. rewrite Hpre in Hm. injection Hm as <-. eexists _, _. split; reflexivity.
+  - cbn [marshal has_type] in Hm, Hty. destruct (underlying t); try discriminate.
+    cbn [bind] in Hm. rewrite Hpre in Hm. injection Hm as <-. destruct w; eexists _, _; split; reflexivity.
+  - cbn [marshal has_type] in Hm, Hty. destruct (underlying t); try discriminate;
+    cbn [bind] in Hm; rewrite Hpre in Hm; injection Hm as <-; try destruct w; eexists _, _; split; reflexivity.
+  - cbn [marshal] in Hm. destruct (f32_is_nan b); cbn [bind] in Hm; rewrite Hpre in Hm; injection Hm as <-;
+      eexists _, _; split; reflexivity.
+  - cbn [marshal] in Hm. destruct (f64_is_nan b); cbn [bind] in Hm; rewrite Hpre in Hm; injection Hm as <-;
+      eexists _, _; split; reflexivity.
+  - cbn [marshal bind] in Hm. rewrite Hpre in Hm. injection Hm as <-. eexists _, _. split; reflexivity.
+  - cbn [marshal bind] in Hm. rewrite Hpre in Hm. injection Hm as <-. eexists _, _. split; reflexivity.
+  - rewrite marshal_list in Hm. apply bind_ok in Hm. destruct Hm as (ts0 & Hm & Hts). rewrite Hpre in Hts. injection Hts as <-.
+    apply bind_ok in Hm. destruct Hm as (body & _ & Hts). injection Hts as <-. eexists _, _. split; reflexivity.
+  - cbn [has_type] in Hty. exfalso. pose proof (simple_underlying t Hs) as Hsu.
+    destruct (underlying t); try discriminate.
+  - rewrite marshal_struct in Hm. apply bind_ok in Hm. destruct Hm as (ts0 & Hm & Hts). rewrite Hpre in Hts. injection Hts as <-.
+    apply bind_ok in Hm. destruct Hm as (body & _ & Hts). injection Hts as <-. eexists _, _. split; reflexivity.
+  - cbn [marshal bind] in Hm. rewrite Hpre in Hm. injection Hm as <-. eexists _, _. split; reflexivity.
+  - rewrite marshal_ptr in Hm. apply bind_ok in Hm. destruct Hm as (ts0 & Hm & Hts). rewrite Hpre in Hts. injection Hts as <-.
+    cbn [has_type] in Hty. pose proof (simple_underlying t Hs) as Hsu. pose proof (noreg_underlying t Hnr) as Hnu.
+    unfold pointee_ty in Hm.
+    destruct (underlying t) eqn:Hut; try discriminate. cbn [simple_ty noreg_ty] in Hsu, Hnu.
+    cbn [app]. exact (IH _ _ Hty Hsu Hnu Hm).
+  - cbn [has_type] in Hty. exfalso. pose proof (simple_underlying t Hs) as Hsu.
+    destruct (underlying t); try discriminate.
+  - cbn [has_type] in Hty. exfalso. pose proof (simple_underlying t Hs) as Hsu.
+    destruct (underlying t); try discriminate.
+  - cbn [marshal bind] in Hm. rewrite Hpre in Hm. injection Hm as <-. eexists _, _. split; reflexivity.
+Qed.
+
+(* ---- one step of unmp on the token shapes marshal produces ---- *)
+Definition leaf_kind (k : N) : bool :=
+  negb (k =? KLiteral) && negb (k =? KTypeName) && negb (k =? KArray) && negb (k =? KObject) &&
+  negb (k =? KMap) && negb (k =? KTuple).
+
+Ltac nil_crush :=
+  repeat match goal with
+         | |- snd (if ?c then _ else _) = [] => destruct c
+         | |- snd (match ?x with _ => _ end) = [] => destruct x
+         | |- snd (pbind (plift _ ?r) _) = [] => destruct r
+         end; try reflexivity.
+
+Section PSteps.
+Variable pf : bytes -> N -> option N.
+Variable o : copts.
+Variable R : registry.
+
+Ltac pstep_rec f :=
+  rewrite (unmp_S pf f o R); generalize (unmp pf f o R); intros prec; unfold pstep, conv_tok.
+
+(* a token that opens no composite and is no literal / type name, against a non-pointer target:
+   no nested call, so nothing is logged after the call's own tap *)
+Lemma pbody_leaf_log prec p t cur tk rest :
+  leaf_kind (kind tk) = true -> (forall e, underlying t <> TPtr e) ->
+  snd (pbody o R prec p t cur tk rest) = [].
+Proof.
+  unfold leaf_kind. intros Hk Hnp.
+  apply andb_true_iff in Hk. destruct Hk as [Hk Htup]. apply negb_true_iff in Htup.
+  apply andb_true_iff in Hk. destruct Hk as [Hk Hmap]. apply negb_true_iff in Hmap.
+  apply andb_true_iff in Hk. destruct Hk as [Hk Hobj]. apply negb_true_iff in Hobj.
+  apply andb_true_iff in Hk. destruct Hk as [Hk Harr]. apply negb_true_iff in Harr.
+  apply andb_true_iff in Hk. destruct Hk as [Hlit Htn]. apply negb_true_iff in Hlit. apply negb_true_iff in Htn.
+  unfold pbody. rewrite Htn. cbn [andb].
+  destruct (underlying t) eqn:Hut; try (exfalso; exact (Hnp _ Hut));
+    try (destruct (kind tk =? KNil); [reflexivity|];
+         destruct (is_end_kind (kind tk)); [reflexivity|];
+         unfold pptr_or_dispatch, pdispatch; cbv beta iota zeta;
+         rewrite Harr, Hobj, Hmap, Htup, Htn;
+         unfold pnan_case, pbytes_case, pscalar_case; cbv beta iota zeta; nil_crush).
+  unfold ptime_case. nil_crush.
+Qed.
+
+Lemma unmp_leaf_log f t cur tk rest p :
+  leaf_kind (kind tk) = true -> (forall e, underlying t <> TPtr e) ->
+  snd (unmp pf (S f) o R t cur (tk :: rest) p) = [(p, kind tk, rk_of t)].
+Proof.
+  intros Hk Hnp. pstep_rec f.
+  assert (Hl : (kind tk =? KLiteral) = false).
+  { unfold leaf_kind in Hk. destruct (kind tk =? KLiteral); [discriminate Hk|reflexivity]. }
+  rewrite Hl. cbn [plift]. rewrite pbind_pok. unfold ptap. cbn [snd].
+  rewrite pbody_leaf_log by assumption. reflexivity.
+Qed.
+
+Lemma unmp_nil_log f t cur rest p : underlying t <> TTime ->
+  snd (unmp pf (S f) o R t cur (T KNil VNone :: rest) p) = [(p, KNil, rk_of t)].
+Proof.
+  intros Hnt. pstep_rec f. cbn [kind val]. change (KNil =? KLiteral) with false. cbn [plift].
+  rewrite pbind_pok. unfold ptap, pbody. cbn [snd kind]. change (KNil =? KTypeName) with false. cbn [andb].
+  destruct (underlying t); try congruence; reflexivity.
+Qed.
+
+Lemma unmp_ptr_step f t e cur tk rest p :
+  underlying t = TPtr e -> head_ok tk -> (kind tk =? KTypeName) = false -> kind tk <> KNil ->
+  unmp pf (S f) o R t cur (tk :: rest) p =
+  ptap (p, kind tk, rk_of t)
+       (pbind (unmp pf f o R e (zero e) (tk :: rest) p) (fun r => pok (GPtr (Some (fst r)), snd r))).
+Proof.
+  intros Hut [Hl He] Ht Hn. pstep_rec f. rewrite Hl. cbn [plift]. rewrite pbind_pok.
+  unfold pbody. rewrite Ht, He. cbn [andb].
+  apply N.eqb_neq in Hn. rewrite Hn, Hut. reflexivity.
+Qed.
+
+Lemma unmp_slice_step f t e cur rest p :
+  underlying t = TSlice e ->
+  unmp pf (S f) o R t cur (T KArray VNone :: rest) p =
+  ptap (p, KArray, rk_of t)
+       (pbind (pslice_loop (unmp pf f o R) p (S (length rest)) e (items_of_gval cur) rest) (fun r =>
+          pok (GList (is_nil_container cur && match fst r with [] => true | _ => false end) (fst r), snd r))).
+Proof.
+  intros Hut. pstep_rec f. cbn [kind val]. change (KArray =? KLiteral) with false. cbn [plift].
+  rewrite pbind_pok. unfold pbody. cbn [kind]. rewrite Hut. reflexivity.
+Qed.
+
+Lemma unmp_array_step f t k e cur rest p :
+  underlying t = TArray k e ->
+  unmp pf (S f) o R t cur (T KArray VNone :: rest) p =
+  ptap (p, KArray, rk_of t)
+       (pbind (parr_loop (unmp pf f o R) p (S (length rest)) e (items_of_gval cur) 0%nat rest) (fun r =>
+          pok (GList false (fst r), snd r))).
+Proof.
+  intros Hut. pstep_rec f. cbn [kind val]. change (KArray =? KLiteral) with false. cbn [plift].
+  rewrite pbind_pok. unfold pbody. cbn [kind]. rewrite Hut. reflexivity.
+Qed.
+
+Lemma unmp_struct_step f t fs cur rest p :
+  underlying t = TStruct fs ->
+  unmp pf (S f) o R t cur (T KObject VNone :: rest) p =
+  ptap (p, KObject, rk_of t)
+       (pbind (pstruct_loop o (unmp pf f o R) p (S (length rest)) fs (depr_of t)
+                 match cur with GStruct vs => vs | _ => map (fun fd => zero (snd fd)) fs end rest)
+              (fun r => pok (GStruct (fst r), snd r))).
+Proof.
+  intros Hut. pstep_rec f. cbn [kind val]. change (KObject =? KLiteral) with false. cbn [plift].
+  rewrite pbind_pok. unfold pbody. cbn [kind]. rewrite Hut. reflexivity.
+Qed.
+
+Lemma unmp_name f cur s rest p :
+  unmp pf (S f) o R TString cur (T KString (VStr s) :: rest) p = (POk (GStr s, rest), [(p, KString, 24)]).
+Proof. pstep_rec f. reflexivity. Qed.
+
+End PSteps.
